@@ -40,13 +40,13 @@ CHECKS = {
  "C11": dict(cat="exploration", tech="runtime exhaustive enumeration of index maps against direct upper-triangle enumeration",
    text="All n<=150 for compress/reinflate/closed-form index, all (N,W) with N<=10, W<=14 for the Toeplitz class maps, compared with a direct enumeration; memoised helpers called twice and in reverse order from a second interpreter.",
    note="exhaustive: true for the stated finite space."),
- "C12": dict(cat="exploration", tech="runtime oracle on statistics-phase outputs and recorded optimisation task arguments",
+ "C12": dict(cat="exploration", tech="runtime oracle on statistics-phase outputs, on the task arguments submitted to the pool and on receipts of what the optimiser entry point received inside each worker (fork, spawn and forkserver workers)",
    text="For every round of every traced run: each cluster's mean/covariance equal the two-pass statistics of exactly its windows with the requested divisor, and task k received exactly that array, the caller's lambda, W and N.",
-   note="Task arguments observed by a class-level Pool.apply_async shim in the parent."),
+   note="Submitted arguments observed by a class-level Pool.apply_async shim in the parent; received arguments by a wrapper the task shim installs on the entry point inside the worker."),
  "C13": dict(cat="exploration", tech="runtime class invariant + alias monitor + shadow-model history checker",
    text="Partition invariant on every state at every phase boundary, input-immutability per phase, an alias monitor that re-checks every earlier state at every later boundary, and random operation histories compared with a shadow model with the documented sharing semantics.",
    note="Scoring-phase cache fill is required to be coherent, not absent (see DESIGN)."),
- "C14": dict(cat="exploration", tech="differential execution across pool sizes / forced completion permutations / call histories (other shapes, same N*W other split, large NW, DEBUG logging, failed call), bitwise digests; entry-point A,B,C,A sequences",
+ "C14": dict(cat="exploration", tech="differential execution across pool sizes / forced completion permutations / call histories (other shapes, same N*W other split, large NW, DEBUG logging, failed call) / environments (worker start method, hash seed, warning filters, jumping clocks, first call in a forked child, multi-threaded BLAS on wide problems), bitwise digests; entry-point A,B,C,A sequences",
    text="For fixed inputs and generator states the digest of the complete result is compared across num_processors, multiprocessing on/off, delay schedules that force observed completion permutations, and preceding calls; evidence lists the permutations observed.",
    note="Completion order is observed via apply_async callbacks; inconclusive if too few distinct permutations were seen."),
  "C15": dict(cat="exploration", tech="differential execution across interpreters: JIT / JIT+boundscheck / interpreted / Numba absent, thread counts 1..16",
@@ -64,7 +64,7 @@ CHECKS = {
  "C19": dict(cat="exploration", tech="byte snapshots and read-only buffers as write watch-points",
    text="Every argument is snapshotted before and compared after each call of the four entry points, returning or raising; the same calls are made with read-only arrays.",
    note=""),
- "C20": dict(cat="fault_enumeration", tech="fault injection at every (round, cluster) task and every phase incl. KeyboardInterrupt/SystemExit and failures before round 0; /proc child scan, ResourceWarning capture, digest of next call; logical hang guard on the pool's plumbing; complete donor-shortage grid",
+ "C20": dict(cat="fault_enumeration", tech="fault injection at every (round, cluster) task and every phase incl. KeyboardInterrupt/SystemExit and failures before round 0; /proc child scan, ResourceWarning capture, digest of next call; logical hang guard on the pool's plumbing; complete donor-shortage grid; scenarios repeated from a non-main thread and under python -O",
    text="Every task index and every phase of the driven runs is faulted in turn in single- and multi-process pools; the exception class/message, absence of leftover children and warnings, and the digest of a subsequent clean call are checked.",
    note="Worker death is a recorded known finding exercised in the thorough tier."),
 }
